@@ -2,7 +2,7 @@
    goroutine has finished its program, some goroutine can make a step (any programs, any schedule). *)
 From Coq Require Import List ZArith Bool Arith Lia.
 Import ListNotations.
-From GU Require Import C12.Conc C12.Model C12.ProofsS.
+From GU Require Import C12.Conc C12.Facts C12.Gen C12.Model C12.ProofsS.
 
 (* a goroutine holding the read lock *)
 Definition inrsec (th : thread) : bool :=
@@ -35,6 +35,11 @@ Proof.
   - destruct (IH ltac:(lia)) as [j [th [Hj Hin]]]. exists (S j), th. split; assumption.
 Qed.
 
+Section Lock.
+  Variable f : facts.
+  Hypothesis Hlock : f_reg_lock f = LLock.
+  Hypothesis Hcopy : f_reg_copies f = true.
+
 Definition LI (s : sstate) : Prop :=
   SI s /\ s_readers s = rsec (s_threads s) /\ (s_writer s = true -> s_readers s = 0).
 
@@ -44,17 +49,17 @@ Proof.
   induction progs; simpl; auto.
 Qed.
 
-Lemma LI_step s i s' : LI s -> s_step s i = Some s' -> LI s'.
+Lemma LI_step s i s' : LI s -> s_step f s i = Some s' -> LI s'.
 Proof.
-  intros (HS & HR & HX) E. split; [eapply SI_step; eauto|].
+  intros (HS & HR & HX) E. split; [eapply (SI_step f Hlock Hcopy); eauto|].
   destruct HS as (_ & HW & _ & _).
   unfold s_step in E.
   destruct (nth_error (s_threads s) i) as [th|] eqn:Ei; [|discriminate].
-  destruct (th_step s th) as [[s1 th']|] eqn:Est; [|discriminate]. inversion E; subst s'; clear E.
+  destruct (th_step f s th) as [[s1 th']|] eqn:Est; [|discriminate]. inversion E; subst s'; clear E.
   pose proof (rsec_upd (s_threads s) i th th' Ei) as HU.
   destruct s as [fns wr rd ths rdn cs]. destruct th as [ops pc must called outs]. simpl in *.
-  destruct pc as [|f|f|f seen|f| |todo| |n]; simpl in Est.
-  - destruct ops as [|[f| | |] r]; try discriminate; inversion Est; subst; clear Est; simpl;
+  destruct pc as [|fs|fs|fs seen|fs| |todo| |n]; simpl in Est; rewrite ?Hlock, ?Hcopy in Est.
+  - destruct ops as [|[fs| | |] r]; try discriminate; inversion Est; subst; clear Est; simpl;
       unfold inrsec in *; simpl in *; (split; [lia|exact HX]).
   - destruct (negb wr && (rd =? 0)) eqn:Eg; [|discriminate]. inversion Est; subst; clear Est.
     apply andb_true_iff in Eg. destruct Eg as [_ Eg]. apply Nat.eqb_eq in Eg. simpl.
@@ -64,7 +69,7 @@ Proof.
   - inversion Est; subst; clear Est. simpl. unfold inrsec in *; simpl in *. split; [lia|discriminate].
   - destruct (negb wr) eqn:Eg; [|discriminate]. inversion Est; subst; clear Est. simpl.
     apply negb_true_iff in Eg. subst wr. unfold inrsec in *; simpl in *. split; [lia|discriminate].
-  - destruct todo as [|f todo]; inversion Est; subst; clear Est; simpl; unfold inrsec in *; simpl in *.
+  - destruct todo as [|g todo]; inversion Est; subst; clear Est; simpl; unfold inrsec in *; simpl in *.
     + split; [lia|]. intros Hw. specialize (HX Hw). lia.
     + split; [lia|exact HX].
   - destruct (negb wr) eqn:Eg; [|discriminate]. inversion Est; subst; clear Est. simpl.
@@ -73,22 +78,22 @@ Proof.
     split; [lia|]. intros Hw. specialize (HX Hw). lia.
 Qed.
 
-Lemma LI_run progs sched : LI (run s_step (s_init progs) sched).
-Proof. apply (inv_run s_step LI LI_step). apply LI_init. Qed.
+Lemma LI_run progs sched : LI (run (s_step f) (s_init progs) sched).
+Proof. apply (inv_run (s_step f) LI LI_step). apply LI_init. Qed.
 
 Definition th_finished (th : thread) : bool :=
   match th_pc th, th_ops th with SIdle, [] => true | _, _ => false end.
 
 (* a goroutine that holds a lock, or that waits for a lock which is free, can step *)
-Lemma step_of_thread s j th : nth_error (s_threads s) j = Some th -> th_step s th <> None -> s_step s j <> None.
+Lemma step_of_thread s j th : nth_error (s_threads s) j = Some th -> th_step f s th <> None -> s_step f s j <> None.
 Proof.
-  intros Hj Hs. unfold s_step. rewrite Hj. destruct (th_step s th) as [[s1 th']|]; [discriminate|congruence].
+  intros Hj Hs. unfold s_step. rewrite Hj. destruct (th_step f s th) as [[s1 th']|]; [discriminate|congruence].
 Qed.
 
-Lemma store_no_deadlock_l : forall progs sched,
-  let s := run s_step (s_init progs) sched in
+Lemma store_no_deadlock_f : forall progs sched,
+  let s := run (s_step f) (s_init progs) sched in
   (exists j th, nth_error (s_threads s) j = Some th /\ th_finished th = false) ->
-  exists i, s_step s i <> None.
+  exists i, s_step f s i <> None.
 Proof.
   intros progs sched s [j [th [Hj Hf]]].
   destruct (LI_run progs sched) as ((_ & HW & _ & _) & HR & HX). fold s in HW, HR, HX.
@@ -97,19 +102,32 @@ Proof.
     destruct (wsec_pos (s_threads s) ltac:(lia)) as [k [th2 [Hk Hin]]].
     exists k. apply (step_of_thread s k th2 Hk).
     destruct s as [fns wr rd ths rdn cs]. destruct th2 as [ops pc must called outs].
-    unfold insec in Hin; simpl in *. destruct pc; try discriminate; simpl; discriminate.
+    unfold insec in Hin; simpl in *. destruct pc; try discriminate; simpl; rewrite ?Hlock, ?Hcopy; discriminate.
   - destruct (s_readers s) as [|r] eqn:Er.
     + (* no lock is held: the unfinished goroutine itself can move *)
       exists j. apply (step_of_thread s j th Hj).
       destruct s as [fns wr rd ths rdn cs]. destruct th as [ops pc must called outs]. simpl in *. subst wr rd.
       unfold th_finished in Hf; simpl in Hf.
-      destruct pc as [|f|f|f seen|f| |todo| |n]; simpl; try discriminate.
-      * destruct ops as [|[f| | |] r]; try discriminate.
+      destruct pc as [|fs|fs|fs seen|fs| |todo| |n]; simpl; rewrite ?Hlock, ?Hcopy; try discriminate.
+      * destruct ops as [|[fs| | |] r]; try discriminate.
       * destruct todo; discriminate.
     + (* read locks are held: a reader is inside Cancel or Len and can always move *)
       destruct (rsec_pos (s_threads s) ltac:(lia)) as [k [th2 [Hk Hin]]].
       exists k. apply (step_of_thread s k th2 Hk).
       destruct s as [fns wr rd ths rdn cs]. destruct th2 as [ops pc must called outs].
-      unfold inrsec in Hin; simpl in *. destruct pc as [|f|f|f seen|f| |todo| |n]; try discriminate; simpl;
+      unfold inrsec in Hin; simpl in *. destruct pc as [|fs|fs|fs seen|fs| |todo| |n]; try discriminate; simpl; rewrite ?Hlock, ?Hcopy;
         try (destruct todo; discriminate); try discriminate.
+Qed.
+End Lock.
+
+(* for the GENERATED facts; Cancel and Len must take the READ lock, as the model assumes *)
+Lemma gen_readers_take_rlock : f_cancel_lock gen_facts = LRLock /\ f_len_lock gen_facts = LRLock.
+Proof. split; reflexivity. Qed.
+
+Lemma store_no_deadlock_l : forall progs sched,
+  let s := run (s_step gen_facts) (s_init progs) sched in
+  (exists j th, nth_error (s_threads s) j = Some th /\ th_finished th = false) ->
+  exists i, s_step gen_facts s i <> None.
+Proof.
+  exact (store_no_deadlock_f gen_facts (proj1 gen_register_locks_and_copies) (proj2 gen_register_locks_and_copies)).
 Qed.
